@@ -8,7 +8,8 @@ import Reamber.Props.C02
 #print axioms Reamber.C02.tempo_list_keeps_times_partial
 #print axioms Reamber.C02.read_charts_each
 #print axioms Reamber.C02.chart_own_header
-#print axioms Reamber.C02.no_stops_tag_counterexample
+#print axioms Reamber.C02.no_stops_tag_reads
 #print axioms Reamber.C02.comment_colon_counterexample
 #print axioms Reamber.C02.pairing_spec
 #print axioms Reamber.C02.reader_notes_eq_spec
+#print axioms Reamber.C02.tempo_list_keeps_times
